@@ -416,6 +416,11 @@ def fix_chunk_starts(steps):
             semi = False
         if prev is not None and prev['form'] in ('bgtask', 'withswap') and not prev.get('want') and st.get('sep', 'none') == 'none':
             st['sep'] = 'blank'
+        if st['form'] == 'badcompile' and prev is not None and st.get('sep', 'none') == 'none':
+            # a statement that does not compile takes its whole part with it: it starts a chunk
+            # of its own, so that what was written before it is a part that runs
+            st['sep'] = 'blank'
+            semi = False
         if st.get('indent') and (prev is None or not (prev.get('indent') or (prev.get('want') and st.get('sep', 'none') == 'none'))):
             # a deeper column only directly under a want (or continuing one)
             st['indent'] = 0
